@@ -14,6 +14,11 @@ def one(m):
         if m['old'] not in s:
             return m['name'], 'ANCHOR NOT FOUND'
         open(p, 'w').write(s.replace(m['old'], m['new'], 1))
+        if m['file'].endswith('.lalrpop'):
+            import subprocess
+            g = subprocess.run([scratch.LALRPOP_GEN, 'src'], cwd=root + '/repo', env=dict(scratch.ENV, LALRPOP_GEN_FORCE='1'), capture_output=True, text=True)
+            if g.returncode != 0:
+                return m['name'], 'LALRPOP FAILED ' + g.stdout[-300:]
         try:
             r = verus_engine.run_unit(unit, root + '/repo', root)
         except Exception as e:
@@ -25,6 +30,7 @@ def one(m):
             for t in f.get('tagged', []):
                 if t['status'] != 'discharged': bad.append(f"{f['name']}/{t['name']}[{','.join(t['props'])}]={t['status']}")
             if f['total'] != 'discharged': bad.append(f"{f['name']}/total={f['total']}")
+            if f.get('invariants','discharged') != 'discharged': bad.append(f"{f['name']}/loop-invariants={f['invariants']}")
         return m['name'], bad or 'NOT CAUGHT'
     finally:
         scratch.remove_copy(root)
